@@ -576,3 +576,25 @@ def validate_evidence(ev):
     cov = ev["coverage"]
     if ev["level"] == "proof":
         assert cov["obligations"] >= 1 and cov["discharged"] >= 0 and cov["checker_cmd"].strip()
+
+
+# ------------------------------------------------------------------ containers and prior use
+def wrap_container(case, a):
+    """the data as ndarray or DataFrame, chosen by the case (explicit "container" or the parity of n + p)"""
+    import pandas as pd
+
+    kind = case.get("container") or ("frame" if (case.get("n", 0) + case.get("p", 1)) % 2 else "ndarray")
+    return pd.DataFrame(a) if kind == "frame" else a
+
+
+def prior_use(det, case, X):
+    """before the judged calls, use the fitted detector on OTHER data with the same shape and index
+    (a result cached under the index of the previous call would then be returned for the wrong data)"""
+    kind = case.get("prior", [None, "predict", "scores"][(case.get("n", 0) // 2) % 3])
+    if kind:
+        X0 = wrap_container(case, X[::-1] * 2.0 + 1.0)
+        try:
+            det.predict(X0) if kind == "predict" else det.transform_scores(X0)
+        except NotImplementedError:  # detectors without per-sample scores
+            det.predict(X0)
+    return kind
